@@ -165,6 +165,8 @@ def jkey(jwk, how="dict", private=True, params=None):
     Key.import_key itself."""
     from joserfc.jwk import OctKey, RSAKey, ECKey, OKPKey
     cls = {"oct": OctKey, "RSA": RSAKey, "EC": ECKey, "OKP": OKPKey}[jwk["kty"]]
+    if jwk["kty"] != "oct" and "d" not in jwk:
+        private = False
     src = jwk if private else rjwk.public_of(jwk)
     if how == "dict" or jwk["kty"] == "oct" and how != "bytes":
         value = dict(src)
